@@ -1,5 +1,6 @@
 SPECIFICATION Spec
-CONSTANTS MaxRound = 2  NoRefit = TRUE  EmitBeh = FALSE
+CONSTANTS MaxRound = 2  Mutation = "norefit"  EmitBeh = FALSE
 CHECK_DEADLOCK FALSE
 INVARIANT FittedAfterConditioners
 INVARIANT IndependentFitImmediately
+INVARIANT NoPrematureFit
